@@ -97,7 +97,14 @@ def raw_uses(prog, modname, fn, pindex=0, depth=0, seen=None):
         if isinstance(st, ast.Assign):
             for t in st.targets:
                 if isinstance(t, ast.Name) and t.id == p:
-                    raw = False
+                    # p = p.strip() / .upper() / .lower(): still the caller's text with all its separators inside
+                    v = st.value
+                    weak = False
+                    while isinstance(v, ast.Call) and isinstance(v.func, ast.Attribute) and v.func.attr in ('strip', 'upper', 'lower', 'lstrip', 'rstrip') and not v.args:
+                        v = v.func.value
+                        weak = True
+                    if not (weak and isinstance(v, ast.Name) and v.id == p):
+                        raw = False
                 if isinstance(t, ast.Tuple) and any(isinstance(e, ast.Name) and e.id == p for e in t.elts):
                     raw = False
     return uses
@@ -120,6 +127,14 @@ def classify(prog, m, fn, name, st, par, depth, seen):
         fs = src(call.func)
         if fs in ('bool', 'str', 'isinstance', 'len', 'repr', 'int'):
             return Use('bad', name, st, detail='read by builtin %s()' % fs)
+        f = call.func
+        if isinstance(f, ast.Attribute) and f.attr in ('sub', 'subn', 'match', 'search', 'fullmatch', 'findall', 'finditer', 'split'):
+            base = f.value
+            compiled = isinstance(base, ast.Name) and isinstance(m.assign_nodes.get(base.id), ast.Call) \
+                and src(m.assign_nodes[base.id].func) in ('re.compile', 'compile')
+            if compiled or (isinstance(base, ast.Name) and m.imports.get(base.id) == ('mod', 're')) \
+                    or (isinstance(base, ast.Call) and src(base.func) == 're.compile'):
+                return Use('bad', name, st, detail='matched by the regular expression in `%s`' % src(call)[:80])
         return Use('dynamic', name, st, detail='argument of unresolved call %s(...)' % fs[:60])
     subs = []
     for r in cands:
